@@ -160,6 +160,7 @@ type Broker struct {
 
 	// records mode (op trpage): fetch answers with real record batches, per topic
 	records map[string][]RecSpec
+	tails   map[string]int // records mode: length of the truncated last batch appended to the record set
 
 	gateCh   chan struct{}
 	gateN    int
@@ -352,6 +353,39 @@ func (b *Broker) OpenManual() {
 		close(b.manual)
 	}
 	b.mu.Unlock()
+}
+
+// SetTails makes the records-mode fetch answer for a topic end with a fragment of n bytes after
+// its complete batches (the usual MaxBytes truncation of the last batch).  The fragment starts
+// with [int32 4+(n-8)][int32 correlation id of the NEXT request on that connection] when n >= 8:
+// read as a frame header it announces exactly the rest of the fragment.
+func (b *Broker) SetTails(m map[string]int) {
+	b.mu.Lock()
+	b.tails = m
+	b.mu.Unlock()
+}
+
+// appendTail splices n fragment bytes into the record set that ends the frame.
+func appendTail(frame []byte, corr int32, topic string, n int) []byte {
+	tail := make([]byte, n)
+	if n >= 8 {
+		binary.BigEndian.PutUint32(tail[0:], uint32(4+n-8))
+		binary.BigEndian.PutUint32(tail[4:], uint32(corr+1))
+	} else {
+		for i := range tail {
+			tail[i] = byte(0xA0 + i)
+		}
+	}
+	// fetch v4, one topic, one partition: [size][corr][throttle][topics=1][topic string][partitions=1]
+	// [partition][error int16][hwm][last stable offset][aborted transactions][record set size]...
+	p := 48 + len(topic)
+	if p+4 <= len(frame) && int(binary.BigEndian.Uint32(frame[p:])) == len(frame)-p-4 {
+		out := append(append([]byte(nil), frame...), tail...)
+		binary.BigEndian.PutUint32(out[p:], uint32(len(frame)-p-4+n))
+		binary.BigEndian.PutUint32(out[0:], uint32(len(out)-4))
+		return out
+	}
+	return frame
 }
 
 // Produced returns the values of all records received in produce requests so far.
@@ -685,6 +719,14 @@ func (b *Broker) answer(c *bconn, ver int16, corr int32, msg protocol.Message, t
 		var buf bytes.Buffer
 		if err = protocol.WriteResponse(&buf, ver, corr, res); err == nil {
 			frame = buf.Bytes()
+			if fm, ok := msg.(*fetch.Request); ok && len(fm.Topics) > 0 {
+				b.mu.Lock()
+				n := b.tails[fm.Topics[0].Topic]
+				b.mu.Unlock()
+				if n > 0 && ver == 4 {
+					frame = appendTail(frame, corr, fm.Topics[0].Topic, n)
+				}
+			}
 		}
 	} else {
 		frame, err = Frame(ver, corr, msg, act.ErrCode, b.topics)
